@@ -169,6 +169,32 @@ pub fn thread_alive(tid: i32) -> bool {
     r == 0
 }
 
+/// Number of threads of this process (field 20 of /proc/self/stat).
+pub fn nr_threads() -> usize {
+    let s = std::fs::read_to_string("/proc/self/stat").unwrap_or_default();
+    // the command name may contain spaces: parse after the closing parenthesis
+    let rest = s.rsplit_once(')').map(|x| x.1).unwrap_or("");
+    rest.split_whitespace().nth(17).and_then(|x| x.parse().ok()).unwrap_or(0)
+}
+
+/// Wait until the process is back to `n` threads (a dropped store's worker has exited).
+pub fn wait_threads(n: usize, limit: Duration) -> bool {
+    let start = Instant::now();
+    let mut spins = 0u32;
+    while nr_threads() > n {
+        spins += 1;
+        if spins < 50 {
+            std::thread::yield_now();
+        } else {
+            std::thread::sleep(Duration::from_micros(20));
+        }
+        if start.elapsed() > limit {
+            return false;
+        }
+    }
+    true
+}
+
 pub fn task_tids() -> Vec<i32> {
     let mut v = vec![];
     if let Ok(rd) = std::fs::read_dir("/proc/self/task") {
